@@ -9,22 +9,68 @@ CAND = ';'.join(['_ZN5Store10trustLevelERK7QStringS2_RK10QByteArray', '_ZN5Store
                  '_ZN5Store30keysForPostponedTrustDecisionsERK7QStringRK5QListI10QByteArrayE', '_ZN5Store33addKeysForPostponedTrustDecisionsERK7QStringRK10QByteArrayRK5QListI25QXmppTrustMessageKeyOwnerE',
                  '_ZN5Store36removeKeysForPostponedTrustDecisionsERK7QStringRK5QListI10QByteArrayE', '_ZN5Store36removeKeysForPostponedTrustDecisionsERK7QStringRK5QListI10QByteArrayES7_',
                  '_ZN5Store4keysERK7QString6QFlagsIN5QXmpp10TrustLevelEE'])
+B_PRE = 'pre-state: any of the 6 trust levels for each of the 4 (owner, key) pairs; postponed decisions: 2 slots, each in use or not, from any sender key (A..D or the unknown key X) about any pair in either direction'
+B_MSG = 'trust message: sender account own/contact, resource own-device/other (echo), sender key any key of the sender account or the unknown key X, e2ee metadata present; owner accounts and key ids symbolic within the universe'
 def I(name, entry, cfg, policy, bound, **kw):
-    d = dict(name=name, entry=entry, unwind=5, timeout_s=300, mem_gb=4, object_bits=12, cdefs={'C18_CFG': cfg, 'C18_POLICY': policy}, bound=bound)
+    d = dict(name=name, entry=entry, unwind=5, timeout_s=300, mem_gb=4, object_bits=12, cdefs={'C18_CFG': cfg, 'C18_POLICY': policy},
+             bound=bound + '; security policy ' + ('TOAKAFA' if policy == 1 else 'none'))
     d.update(kw); return d
 def shape(two, t0, d0, t1=0, d1=0, npre=2): return two | (t0 << 2) | (d0 << 3) | (t1 << 4) | (d1 << 5) | (npre << 8)
+def MSG(name, policy, two, t0, d0, t1=0, d1=0, npre=2, **kw):
+    own = lambda t, d: '+'.join(x for x, f in (('1 trusted key', t), ('1 distrusted key', d)) if f)
+    b = 'one trust message with %s' % ('2 key owners (%s | %s)' % (own(t0, d0), own(t1, d1)) if two else '1 key owner (%s)' % own(t0, d0))
+    return I(name, 'h_msg', shape(two, t0, d0, t1, d1, npre), policy, b + '; %d postponed-decision slots in the pre-state' % npre, **kw)
+def MAN(name, policy, a, d, own=0, fixed=0, npre=2, **kw):
+    b = 'one manual decision (public makeTrustDecisions) about keys of %s: %s; %d postponed-decision slots in the pre-state' % (
+        'the own account' if own else 'the contact', '+'.join(x for x, f in (('authenticate 1 key', a), ('distrust 1 key', d)) if f), npre)
+    if fixed: b += '; both keys of the contact have the fixed level %d' % (1 << (fixed - 1))
+    return I(name, 'h_manual', a | (d << 1) | (own << 2) | (fixed << 4) | (npre << 8), policy, b, **kw)
+T = ('thorough',)
 SPEC = dict(
     property='C18',
     groups=[
         dict(name='atm', harness='h.cpp', tus=TUS, models=MODELS, shadow_task=True, cand=CAND,
              instances=[
-                 I('msg_1o_t', 'h_msg', shape(0, 1, 0), 0, 'one owner, one trusted key'),
-                 I('msg_1o_td_toakafa', 'h_msg', shape(0, 1, 1), 1, 'one owner, one trusted key'),
-                 I('msg_2o_t_d', 'h_msg', shape(1, 1, 0, 0, 1), 0, ''),
-                 I('msg_2o_td_td_toakafa', 'h_msg', shape(1, 1, 1, 1, 1, npre=0), 1, ''),
-                 I('manual_c_ad', 'h_manual', 3 | (2 << 8), 0, ''),
-                 I('manual_o_ad_toakafa', 'h_manual', 7 | (2 << 8), 1, ''),
+                 MSG('msg_1o_t', 0, 0, 1, 0),
+                 MSG('msg_1o_d_toakafa', 1, 0, 0, 1),
+                 MSG('msg_1o_td_toakafa', 1, 0, 1, 1),
+                 MSG('msg_2o_t_d', 0, 1, 1, 0, 0, 1),
+                 MSG('msg_2o_t_t_toakafa', 1, 1, 1, 0, 1, 0),
+                 MSG('msg_2o_td_td', 0, 1, 1, 1, 1, 1, npre=0),
+                 MAN('manual_c_ad', 0, 1, 1),
+                 MAN('manual_c_a_toakafa', 1, 1, 0),
+                 MAN('manual_c_d_toakafa', 1, 0, 1),
+                 # thorough: the remaining shape / policy combinations
+                 MSG('msg_1o_t_toakafa', 1, 0, 1, 0, tiers=T), MSG('msg_1o_d', 0, 0, 0, 1, tiers=T), MSG('msg_1o_td', 0, 0, 1, 1, tiers=T),
+                 MSG('msg_2o_t_d_toakafa', 1, 1, 1, 0, 0, 1, tiers=T), MSG('msg_2o_d_t', 0, 1, 0, 1, 1, 0, tiers=T), MSG('msg_2o_t_t', 0, 1, 1, 0, 1, 0, tiers=T),
+                 MSG('msg_2o_d_d_toakafa', 1, 1, 0, 1, 0, 1, tiers=T), MSG('msg_2o_td_td_toakafa', 1, 1, 1, 1, 1, 1, npre=0, tiers=T),
+                 MSG('msg_2o_td_t_toakafa', 1, 1, 1, 1, 1, 0, npre=1, tiers=T),
+                 MAN('manual_c_ad_toakafa', 1, 1, 1, tiers=T), MAN('manual_c_a', 0, 1, 0, tiers=T), MAN('manual_c_d', 0, 0, 1, tiers=T),
              ]),
     ],
-    bounds=[], assumptions=[], outside=[],
+    bounds=[
+        'single steps from an arbitrary valid pre-state (no histories): one received trust message or one manual decision, checked against a reference model of XEP-0450 written in the harness',
+        'universe: 2 accounts (own "o", contact "c") x 2 key ids each (A,B / C,D) + one key id X unknown to the storage (usable as sender key only); key ids are globally unique (a key id belongs to one account); one encryption protocol',
+        B_PRE, B_MSG,
+        'message shape fixed per instance: 1 or 2 key owners with <= 1 trusted and <= 1 distrusted key each (values symbolic); manual decision: <= 1 key to authenticate and <= 1 key to distrust',
+        'security policy fixed per instance: none or TOAKAFA',
+        'cascade of postponed decisions: up to 3 nested authenticate rounds (2 pre-state entries can fire one after the other); real-code loops and recursion unwound 5 times with unwinding assertions',
+        'container capacities: hash containers 4 entries, lists 6, postponed-decision table 4 (exceeding one is flagged inconclusive, never silently dropped)',
+    ],
+    assumptions=[
+        'the trust storage INTERFACE (QXmppTrustStorage / QXmppAtmTrustStorage) is a model (class Store in h.cpp) written from the documented contract of QXmppTrustStorage.cpp / QXmppAtmTrustStorage.cpp: array-backed over the universe, every call answers with an already finished task; the behaviour of the real memory storages is covered by the repo tests tst_qxmpptrustmemorystorage / tst_qxmppatmtrustmemorystorage and is NOT re-checked here; the encryption namespace argument is ignored (one protocol); setTrustLevel reports no modified keys (only the trustLevelsChanged signal would use them)',
+        'QMultiHash<QString,QByteArray>, QHash<bool,...>, QHash<TrustLevel,...>, QHash<QString,QMultiHash<...>> are class-level models (c18_containers.h: value semantics, duplicates kept, iteration in slot order, keys restricted to empty / 1-unit strings, anything else flagged); QList<QByteArray|QString|QXmppTrustMessageKeyOwner> block management (append, detach, copy, +=) is a class-level model (c18_env.c), the rest of QList is real code over the shared QListData model; QtPrivate::RefCount::ref/deref are one-step models of the inline atomics',
+        'QXmppTask/QXmppPromise shadow (contract discharged by C13); the manager object is raw storage with only m_client / m_trustStorage set (QObject part never touched); trustLevelsChanged (moc code) is a counter',
+        'QXmppClient is environment: configuration().jidBare()/jid() answer the own bare JID "o" / full JID "o/1", extensions() is empty (no carbon manager); QXmppMessage::trustMessageElement() answers the element built by the harness through the real QXmppTrustMessageElement / KeyOwner setters; from() and e2eeMetadata() are the real QXmppStanza code on a stanza object',
+        'dynamic_cast<QXmppAtmTrustStorage*> of the storage pointer yields the registered Store object',
+        'pre-state invariants: at most one postponed entry per (sender key, key) [storage contract]; a postponed decision sent with a key of the contact concerns a key of the contact [it was in scope when it was stored]',
+        'sendTrustMessage is a recorder (outgoing trust messages are outside the claim); std::sort / std::unique over the contact JIDs of such a message are cut (only their arguments to sendTrustMessage depend on them)',
+    ],
+    outside=[
+        'sequences of more than one event (the inductive step from an arbitrary valid pre-state carries the property); larger universes, more keys per owner in one message, more than 2 pre-state postponed decisions',
+        'two different senders having postponed the SAME decision (same key, same direction): the manager retires both when the first one fires (removal by key id), the property text does not say which is right; excluded from the pre-states',
+        'key ids shared between accounts: postponed decisions are stored under the sender KEY ID only (storage API), so authenticating (contact, K) would also fire decisions postponed for a sender key K seen on another account; the universe keeps key ids unique',
+        'manual decisions about keys of the OWN account (the follow-up trust messages to every contact with authenticated keys make symbolic execution exceed the budget: > 50 M variables); the private makeTrustDecisions / authenticate / distrust they end in are the ones exercised by the other instances',
+        'messages without e2ee metadata (empty sender key), trust message elements with a foreign usage namespace, persistent storages, asynchronous storages (continuations running later), content and recipients of outgoing trust messages (sendTrustMessage is recorded only), the trustLevelsChanged signal arguments',
+    ],
 )
